@@ -84,6 +84,10 @@ class ClassInfo:
         self.methods: Dict[str, FuncInfo] = {}
         self.class_attrs: Dict[str, ast.AST] = {}
         self.bases = [ast.unparse(b) for b in node.bases]
+        # a typing.NamedTuple record: fields from the annotations like an attrs class, plus the tuple protocol
+        self.is_namedtuple = any(b.split(".")[-1] == "NamedTuple" for b in self.bases)
+        if self.is_namedtuple:
+            self.is_attrs = True
         for st in node.body:
             if isinstance(st, (ast.FunctionDef, ast.AsyncFunctionDef)):
                 self.methods[st.name] = FuncInfo(module, self, st)
